@@ -4,12 +4,50 @@ import (
 	"errors"
 	"fmt"
 	"math"
+	"math/big"
 	"regexp"
 	"strconv"
 	"strings"
 )
 
 var stringToNumberParseInteger = regexp.MustCompile(`^(?:0[xX])`)
+
+// isStrDecimalLiteral reports whether value is a StrDecimalLiteral (ECMA-262 9.3.1):
+// an optional sign followed by Infinity, digits[.[digits]][exponent] or .digits[exponent].
+func isStrDecimalLiteral(value string) bool {
+	i := 0
+	if i < len(value) && (value[i] == '+' || value[i] == '-') {
+		i++
+	}
+	if value[i:] == "Infinity" {
+		return true
+	}
+	digits := func() int {
+		start := i
+		for i < len(value) && '0' <= value[i] && value[i] <= '9' {
+			i++
+		}
+		return i - start
+	}
+	count := digits()
+	if i < len(value) && value[i] == '.' {
+		i++
+		count += digits()
+	}
+	if count == 0 {
+		return false
+	}
+	if i < len(value) && (value[i] == 'e' || value[i] == 'E') {
+		i++
+		if i < len(value) && (value[i] == '+' || value[i] == '-') {
+			i++
+		}
+		if digits() == 0 {
+			return false
+		}
+	}
+	return i == len(value)
+}
 
 func parseNumber(value string) float64 {
 	value = strings.Trim(value, builtinStringTrimWhitespace)
@@ -18,29 +56,26 @@ func parseNumber(value string) float64 {
 		return 0
 	}
 
-	var parseFloat bool
-	switch {
-	case strings.ContainsRune(value, '.'):
-		parseFloat = true
-	case stringToNumberParseInteger.MatchString(value):
-		parseFloat = false
-	default:
-		parseFloat = true
-	}
-
-	if parseFloat {
-		number, err := strconv.ParseFloat(value, 64)
-		if err != nil && !errors.Is(err, strconv.ErrRange) {
+	if stringToNumberParseInteger.MatchString(value) {
+		// HexIntegerLiteral: 0x or 0X followed by hex digits only, of any length.
+		number, ok := new(big.Int).SetString(value[2:], 16)
+		if !ok || strings.ContainsAny(value[2:], "+-_") {
 			return math.NaN()
 		}
-		return number
+		float, _ := new(big.Float).SetInt(number).Float64()
+		return float
 	}
 
-	number, err := strconv.ParseInt(value, 0, 64)
-	if err != nil {
+	// strconv.ParseFloat accepts more than StrDecimalLiteral (inf, infinity and nan in any
+	// case, underscores, hexadecimal floats), so the grammar is checked first.
+	if !isStrDecimalLiteral(value) {
 		return math.NaN()
 	}
-	return float64(number)
+	number, err := strconv.ParseFloat(value, 64)
+	if err != nil && !errors.Is(err, strconv.ErrRange) {
+		return math.NaN()
+	}
+	return number
 }
 
 func (v Value) float64() float64 {
